@@ -159,6 +159,68 @@ fn stale_flag_context(f: u32, accepted: &[&Inj], raw: &sym::RawModule, nimp: u32
     false
 }
 
+/// What the CURRENT lowering of semantic-after on branches does (the open findings, modelled exactly, so that only a
+/// deviation that is explained by them is filed under them): a per-site i32 flag, zero at function entry, is set in
+/// front of the branch and cleared behind it (fall-through), where conditional branches also run the probe; after the
+/// `end` of every target construct the flagged bodies of that construct are checked in registration order as
+/// `if f1 {p1} else if f2 {p2}` — the first set flag wins, flags are never cleared there; a body whose target is the
+/// function label is planned behind the function's final `end` and never runs.
+/// Returns uid -> sorted ticks at which that probe fires under this model.
+fn known_lowering_ticks(accepted: &[&Inj], raw: &sym::RawModule, nimp: u32, events: &[(i64, Ev)]) -> BTreeMap<u32, Vec<i64>> {
+    // per function: instrumented branch sites in instruction order
+    let mut site_uid: BTreeMap<(u32, usize), u32> = BTreeMap::new();
+    let mut entries: BTreeMap<(u32, usize), Vec<u32>> = BTreeMap::new();
+    let mut sorted: Vec<&&Inj> = accepted
+        .iter()
+        .filter(|i| {
+            i.mode == Mode::SemAfter
+                && matches!(raw.funcs[(i.func - nimp) as usize].ops[i.at].name.as_str(), "Br" | "BrIf" | "BrTable" | "BrOnNull" | "BrOnNonNull")
+        })
+        .collect();
+    sorted.sort_by_key(|i| (i.func, i.at));
+    for i in sorted {
+        let ops = &raw.funcs[(i.func - nimp) as usize].ops;
+        site_uid.insert((i.func, i.at), i.uid);
+        for t in lower::branch_targets_abs(ops, i.at).into_iter().flatten() {
+            entries.entry((i.func, t)).or_default().push(i.uid);
+        }
+    }
+    let mut flags: BTreeMap<u32, bool> = BTreeMap::new();
+    let mut out: BTreeMap<u32, Vec<i64>> = BTreeMap::new();
+    for (t, e) in events {
+        match e {
+            Ev::FuncEnter { f } => {
+                for ((sf, _), uid) in &site_uid {
+                    if sf == f {
+                        flags.insert(*uid, false);
+                    }
+                }
+            }
+            Ev::Branch { f, pc, taken, .. } => {
+                if let Some(uid) = site_uid.get(&(*f, *pc)) {
+                    flags.insert(*uid, true);
+                    if !*taken {
+                        flags.insert(*uid, false);
+                        out.entry(*uid).or_default().push(*t);
+                    }
+                }
+            }
+            Ev::AfterConstruct { f, open } => {
+                if let Some(list) = entries.get(&(*f, *open)) {
+                    if let Some(uid) = list.iter().find(|u| flags.get(u).copied().unwrap_or(false)) {
+                        out.entry(*uid).or_default().push(*t);
+                    }
+                }
+            }
+            _ => {}
+        }
+    }
+    for v in out.values_mut() {
+        v.sort();
+    }
+    out
+}
+
 fn args_for(rng: &mut Rng, n: usize) -> Vec<Val> {
     (0..n)
         .map(|_| {
@@ -620,24 +682,23 @@ impl Sem {
                     let mut cls = format!("{:?}@{}", inj.mode, site_class(name));
                     if matches!(name, "Br" | "BrIf" | "BrTable" | "BrOnNull") {
                         if inj.mode == Mode::SemAfter {
-                            // the two known root causes do not depend on the kind of branch
-                            cls = format!("{:?}@branch→{}", inj.mode, lower::branch_target_class(ops, inj.at));
-                            // a firing that is due on a NOT-taken execution never involves a flag check at a block end
-                            let not_taken: Vec<i64> = r0
-                                .events
-                                .iter()
-                                .filter_map(|(t, e)| match e {
-                                    Ev::Branch { f, pc, taken: false, .. } if *f == inj.func && *pc == inj.at => Some(*t),
-                                    _ => None,
-                                })
-                                .collect();
-                            let fallthrough_missing = not_taken.iter().any(|t| got.iter().filter(|g| *g == t).count() < exp.iter().filter(|g| *g == t).count());
-                            if fallthrough_missing {
-                                cls.push_str("|missing-on-fallthrough");
-                            } else {
-                                // can a stale flag (never cleared after its probe fired) influence this function in this call?
-                                cls.push_str(if stale_flag_context(inj.func, &accepted, &raw, nimp, &r0.events) { "|stale-flag-context" } else { "|stale-free-context" });
+                            // Is the deviation exactly what the known (open) defects of the lowering produce for this execution?
+                            let known = known_lowering_ticks(&accepted, &raw, nimp, &r0.events).remove(&inj.uid).unwrap_or_default();
+                            let targets = lower::branch_targets_abs(ops, inj.at);
+                            if got == known {
+                                let cause = match (targets.iter().any(|t| t.is_none()), targets.iter().any(|t| t.is_some())) {
+                                    (true, false) => "func-label",
+                                    (true, true) => "func-label+flag-protocol",
+                                    _ => "flag-protocol",
+                                };
+                                out.violate(
+                                    format!("probe-timing:SemAfter@branch|as-known-lowering:{}", cause),
+                                    json!({"plan": plan_json, "injection": format!("{:?}", inj), "call": format!("f{}({:?})", func, args), "expected_ticks": exp,
+                                           "observed_ticks": got, "note": "observed == model of the known lowering defects", "explicit_witness": witness(), "base_wat": base_wat()}),
+                                );
+                                continue;
                             }
+                            cls = format!("{:?}@branch→{}|not-explained-by-known-lowering", inj.mode, lower::branch_target_class(ops, inj.at));
                         } else {
                             cls = format!("{}→{}", cls, lower::branch_target_class(ops, inj.at));
                         }
